@@ -9,16 +9,9 @@ import (
 	"os"
 	"strconv"
 	"testing"
-
-	"github.com/AdguardTeam/golibs/cache"
 )
 
 func zzGetenv(k string) (v string) { return os.Getenv(k) }
-
-// zzNewClientIDCache builds the cache the way NewServer does.
-func zzNewClientIDCache() (c cache.Cache) {
-	return cache.New(cache.Config{EnableLRU: true, MaxCount: defaultClientIDCacheCount})
-}
 
 // zzSeed returns the VERIF_SEED value.
 func zzSeed() (seed int64) {
